@@ -63,14 +63,14 @@ def instruction(ops=None, aligned_only=False, mem_base=8):
         if op in rv32.LOAD_OPS:
             w = rv32.LOAD_W[op]
             if aligned_only:
-                return [op, draw(rd), mem_base, w * draw(st.integers(0, 48 // w))]
+                return [op, draw(rd), mem_base, w * draw(st.integers(0, draw(st.sampled_from([8, 16, 48])) // w))]
             if draw(st.integers(0, 3)):
                 return [op, draw(rd), draw(st.sampled_from([8, 8, 8, 2, 3])), draw(st.integers(-8, 40))]
             return [op, draw(rd), draw(reg), draw(imm12)]
         if op in rv32.STORE_OPS:
             w = rv32.STORE_W[op]
             if aligned_only:
-                return [op, mem_base, draw(reg), w * draw(st.integers(0, 48 // w))]
+                return [op, mem_base, draw(reg), w * draw(st.integers(0, draw(st.sampled_from([8, 16, 48])) // w))]
             if draw(st.integers(0, 3)):
                 return [op, draw(st.sampled_from([8, 8, 8, 2, 3])), draw(reg), draw(st.integers(-8, 40))]
             return [op, draw(reg), draw(reg), draw(imm12)]
@@ -90,7 +90,7 @@ def instruction(ops=None, aligned_only=False, mem_base=8):
 @st.composite
 def template(draw, aligned_only=False):
     """Structured blocks: counted loop, call/return, print / exit sequences, load-use, store-load."""
-    kind = draw(st.sampled_from(["loop", "call", "print", "exit", "loaduse", "storeload", "printstr", "jalrwrap"]))
+    kind = draw(st.sampled_from(["loop", "call", "print", "exit", "loaduse", "storeload", "printstr", "jalrwrap", "rmw"]))
     body_ops = [o for o in rv32.ALL_OPS if o not in rv32.BRANCH_OPS + ["jal", "jalr", "ecall"]]
     body = lambda n: draw(st.lists(instruction(body_ops, aligned_only), min_size=0, max_size=n))  # noqa: E731
     if kind == "loop":
@@ -123,6 +123,17 @@ def template(draw, aligned_only=False):
             tgt = 4
         gap = draw(st.lists(st.just(["addi", 0, 0, 0]), max_size=3))
         return [["addi", r, 0, k]] + gap + [["jalr", draw(st.sampled_from([0, 1, r])), r, tgt - k]]
+    if kind == "rmw":
+        # read-modify-write of one location followed by a re-read (block resident before the store)
+        r = draw(st.sampled_from([1, 2, 3]))
+        off = 4 * draw(st.integers(0, 6))
+        sub = draw(st.sampled_from([0, 0, 1, 2, 3]))
+        st_op = draw(st.sampled_from(["sw", "sh", "sb"]))
+        ld_op = draw(st.sampled_from(["lw", "lh", "lb", "lhu", "lbu"]))
+        so = off + (0 if st_op == "sw" else (sub & 2) if st_op == "sh" else sub)
+        lo = off + (0 if ld_op == "lw" else (sub & 2) if ld_op in ("lh", "lhu") else sub)
+        mod = draw(st.sampled_from([["addi", r, r, 1], ["xori", r, r, -1], ["add", r, r, r], ["addi", 0, 0, 0]]))
+        return [["lw", r, 8, off], mod, [st_op, 8, r, so], [ld_op, draw(st.sampled_from([1, 2, 3])), 8, lo]]
     if kind == "loaduse":
         r = draw(st.sampled_from([1, 2, 3]))
         off = 4 * draw(st.integers(0, 6))
@@ -186,7 +197,7 @@ def program_case(max_len=14, aligned_only=False, ops=None, min_len=1):
                      init_regs_aligned() if aligned_only else init_regs(), init_mem())
 
 
-MEM_HEAVY_OPS = (rv32.LOAD_OPS + rv32.STORE_OPS) * 4 + ["sw", "sw", "lw", "lw"] * 3 + rv32.ALL_OPS
+MEM_HEAVY_OPS = (rv32.LOAD_OPS + rv32.STORE_OPS) * 6 + ["sw", "lw"] * 4 + rv32.ALL_OPS
 
 
 def mem_heavy_case(max_len=16):
